@@ -65,4 +65,27 @@ var registry = []Harness{
 	{Prop: "C14", Pkg: "container", Func: "VerifC14Signatures", Link: []string{"nns", "netmap", "balance", "neofsid", "container"},
 		Quick: [][]int{{1, 2, 1}, {1, 3, 1}, {2, 2, 2}, {2, 2, 1}, {1, 2, 0}}, Thorough: [][]int{{1, 1, 1}, {1, 2, 1}, {1, 3, 1}, {2, 2, 2}, {2, 2, 1}, {1, 2, 0}, {2, 1, 2}},
 		Bound: "vector 0 = {m0,m1}, optional vector 1 = {m2}; REPs symbolic 0..4; per row up to 3 (resp. 2) signature tokens, each with symbolic signer (member 0..2 / outsider) and made for the message or for another one; rows handed in = param 2"},
+	{Prop: "C20", Pkg: "reputation", Func: "VerifC20Reputation", Link: []string{"reputation"},
+		Quick: [][]int{{1, 1, 1}, {2, 1, 1}, {0, 1, 1}, {1, 2, 2}, {2, 2, 1}, {1, 1, 0}, {3, 2, 1}, {1, 4, 4}}, Thorough: allTriples(5),
+		Bound: "two puts (epochs symbolic inside the encoding length classes given by params 0,1: 0 / 1..127 / 128..32767 / ..8388607 / ..2^31-1; 33-byte symbolic peers, 3-byte values), queries listByEpoch(q), get(q,peer1) with symbolic q of class param 2"},
+	{Prop: "C20", Pkg: "netmap", Func: "VerifC20NetmapConfig", Link: []string{"netmap"},
+		Quick: [][]int{{1, 2, 1}, {2, 2, 2}, {0, 1, 0}, {6, 2, 6}, {1, 1, 2}}, Thorough: [][]int{{1, 2, 1}, {2, 2, 2}, {0, 1, 0}, {6, 2, 6}, {1, 1, 2}, {0, 0, 0}, {2, 6, 2}, {6, 6, 6}, {1, 6, 1}, {2, 1, 2}},
+		Bound: "two setConfig with fully symbolic keys of lengths (param0,param1) from {0,1,2,6} and 2-byte values; config(kq) with symbolic key of length param2; listConfig"},
+	{Prop: "C20", Pkg: "neofs", Func: "VerifC20NeoFSConfig", Link: []string{"neofs", "processing"},
+		Quick: [][]int{{1, 2, 1}, {2, 2, 2}, {0, 1, 0}, {6, 2, 6}}, Thorough: [][]int{{1, 2, 1}, {2, 2, 2}, {0, 1, 0}, {6, 2, 6}, {1, 1, 2}, {0, 0, 0}, {2, 6, 2}, {6, 6, 6}, {11, 11, 11}, {21, 2, 21}},
+		Bound: "NeoFS contract with Notary; two setConfig with fully symbolic keys of lengths (param0,param1) and 2-byte values; config(kq); listConfig (plus the two keys configured at deployment)"},
+	{Prop: "C20", Pkg: "neofsid", Func: "VerifC20NeoFSID", Link: []string{"neofsid"},
+		Bound: "addKey(o1,[k1,k2]) addKey(o2,[k3]) removeKey(o3,[k4]) with symbolic 25-byte owners and 33-byte keys free to coincide; key(oq) for symbolic oq"},
+}
+
+func allTriples(n int) [][]int {
+	var out [][]int
+	for a := 0; a < n; a++ {
+		for b := 0; b < n; b++ {
+			for c := 0; c < n; c++ {
+				out = append(out, []int{a, b, c})
+			}
+		}
+	}
+	return out
 }
